@@ -1,7 +1,7 @@
 """C03 - every constructible message is well-formed and parses back intact."""
 import itertools
 
-from ..engine import Spec, assume, check, reached, HarnessError
+from ..engine import Spec, assume, check, reached, HarnessError, decode_choice, notrace
 from ..runner import Ob
 from .. import shapes, ref_codec, ref_msg
 from ..ref_sig import split
@@ -100,6 +100,8 @@ def obligations(tier):
     for kind in ('call', 'return', 'error', 'signal'):
         obs.append(Ob('limit:' + kind, 'limit', {'kind': kind}, timeout=60, twin=True, functions=FUNCS[:5],
                       bounds='size limit symbolic'))
+    obs.append(Ob('serial:end-of-range', 'wrap', {}, timeout=60, twin=True, functions=FUNCS[:2],
+                  bounds='counter started 0..5 below 2^32 (selector), 8 messages of the four types built in a row'))
     obs.append(Ob('reserved-path', 'reserved', {}, timeout=30, twin=True, functions=FUNCS[1:2],
                   bounds='selector over 4 paths'))
     return obs
@@ -307,6 +309,36 @@ def build(family, p):
             reached()
         h.__name__ = 'limit'
         return Spec(h, [('L', int)], witnesses=[(0,), (2 ** 27,), (40,), (1000,)])
+
+    if family == 'wrap':
+
+        def hw(code):
+            d = decode_choice(code, [6])[0]
+            with notrace():
+                message.DBusMessage._nextSerial = 2 ** 32 - 1 - d
+                seen = []
+                try:
+                    for i in range(8):
+                        try:
+                            if i % 4 == 0:
+                                m = message.MethodCallMessage('/a', 'M')
+                            elif i % 4 == 1:
+                                m = message.SignalMessage('/a', 'S', 'a.b')
+                            elif i % 4 == 2:
+                                m = message.MethodReturnMessage(5)
+                            else:
+                                m = message.ErrorMessage('a.b.E', 5)
+                        except Exception:
+                            continue            # not constructible at the end of the serial range: nothing is sent
+                        back = message.parseMessage(m.rawMessage, [])
+                        check(m.serial == back.serial and 1 <= back.serial < 2 ** 32, 'a message went out with serial 0 / a serial that does not fit')
+                        check(back.serial not in seen, 'a serial was used twice')
+                        seen.append(back.serial)
+                finally:
+                    message.DBusMessage._nextSerial = 1
+            reached()
+        hw.__name__ = 'wrap'
+        return Spec(hw, [('code', int)], witnesses=[(0,), (3,), (5,)])
 
     if family == 'reserved':
         PATHS = ['/org/freedesktop/DBus/Local', '/org/freedesktop/DBus/Loca', '/org/freedesktop/DBus',
